@@ -552,6 +552,11 @@ def gen_c18(rnd, n, thorough=False):
                      "sync s/a.wsp", "drop s/a.wsp",
                      "cliviewraw src=s:a.wsp from=0 until=0 archive=0 header=0 sort=%d" % (rnd.pick([0, 1]) if thorough else 0),   # (the model's insertion sort of 70 000 points takes half a minute)
                      "cliview src=s:a.wsp from=0 until=0 archive=0 header=1"]
+            # ... and, through a server: a client resets its connection while this big answer is on its way; the
+            # requests that follow show exactly what their own file stores
+            lines += fill_ops(rnd, 's/small.wsp', [(1, 20), (5, 12)], 2, 0x3f000000, density=0.6)
+            lines += ["cliabort file=s/a.wsp path=view-raw", "cliview src=s:small.wsp from=0 until=0 archive=-1 header=1 remote=1",
+                      "cliabort file=s/a.wsp path=view", "cliviewraw src=s:small.wsp from=0 until=0 archive=-1 header=1 sort=1 remote=1"]
             cases.append({'id': 'c18-%d' % c, 'lines': lines, 'tags': {'layout': 'big%d' % N}})
             continue
         lname = rnd.pick(list(CLI_LAYOUTS))
@@ -599,6 +604,13 @@ def gen_c20(rnd, n, thorough=False):
             layout = rnd.pick(lay + [[(1, 7), (7, 10)], [(2, 3), (6, 5)], [(1, 5), (5, 4), (20, 3)], [(1, 4), (4, 2), (8, 6)],
                                      [(1, 9), (6, 2)], [(1, 12), (10, 2)], [(1, 3), (2, 2)], [(1, 9), (4, 3), (8, 2)], [(60, 90), (3600, 2)],
                                      [(1, 9), (6, 2)], [(1, 9), (4, 3), (8, 2)]])
+            if rnd.chance(0.3):
+                # archives of several hundred points whose ring wraps at (or next to) a multiple of a page worth of
+                # slots (4096 / 12 = 341) behind the slots the finest archive covers
+                fine = rnd.pick([(1, 600), (1, 300), (2, 300)])
+                cover = fine[0] * fine[1] // 60
+                n1 = cover + 341 * rnd.pick([1, 1, 2]) + rnd.pick([0, 1, 2, -1])
+                layout = [fine, (60, n1)] + ([(3600, 24 * 30)] if rnd.chance(0.4) else [(300, 12 * 24 * 3)] if rnd.chance(0.3) else [])
             top = layout[-1][0]
             base = rnd.pick([1700000000, 1700000000, 2 ** 31 - 40, 2 ** 31 + 1000, 2 ** 31 + 10 ** 8, 3 * 10 ** 9])
             now = base + rnd.pick([0, rnd.randrange(top), top - 1 - base % top, rnd.randrange(10 ** 5)])
@@ -808,6 +820,11 @@ def gen_c12(rnd, n, thorough=False):
            "many s/big.wsp 0 @ %d %s" % (len(offs), " ".join("@-%d %016x" % (o, cvalue(rnd, False)) for o in offs)), "sync s/big.wsp", "drop s/big.wsp"]
     big.append("cliview src=s:big.wsp from=0 until=0 archive=0 header=1 remote=1")
     big.append("cliviewraw src=s:big.wsp from=0 until=0 archive=0 header=0 sort=0 remote=1")
+    # a client that resets its connection while the big answer is on its way, then ordinary requests
+    big += fill_ops(rnd, 's/small.wsp', [(1, 20), (5, 12)], 2, 0x3f000000, density=0.6)
+    for path in ('view-raw', 'view'):
+        big += ["cliabort file=s/big.wsp path=%s" % path, "cliview src=s:small.wsp from=0 until=0 archive=-1 header=1 remote=1",
+                "cliviewraw src=s:small.wsp from=0 until=0 archive=-1 header=1 sort=1 remote=1"]
     cases.append({'id': 'c12-big', 'lines': big, 'tags': {'layout': 'big%d' % N}})
     # the query string itself (net/url as client and handler use it): escape, unescape, parse
     import urllib.parse
